@@ -40,7 +40,7 @@ Lemma fast_attach_spec e : forall swp sep small n2 ds,
   end.
 Proof.
   induction e as [|e IH]; intros swp sep small n2 ds Sh Ss Ec; [exact I|].
-  cbn [plus] in Sh. pose proof Sh as (H1 & H2 & L & F). cbn [edge_caps] in Ec. destruct Ec as [Ecap Ech].
+  cbn [plus] in Sh. pose proof Sh as (H1 & H2 & L & F & Cpx). cbn [edge_caps] in Ec. destruct Ec as [Ecap Ech].
   cbn [BTreeModel.fast_attach].
   set (c := if swp then n_count n2 else 0) in *.
   assert (Hc : c <= n_count n2) by (unfold c; destruct swp; lia).
@@ -56,12 +56,12 @@ Proof.
   { destruct (n_count n2 <? maxCap) eqn:Er; [|exact I]. apply Nat.ltb_lt in Er. destruct swp.
     - split.
       + cbn [BTreeBase.shape]. unfold n_count in *. cbn [n_items n_cap n_children]. rewrite !app_length. cbn [length].
-        split; [lia|]. split; [lia|]. split; [lia|]. apply Forall_app. split; auto.
+        split; [lia|]. split; [lia|]. split; [lia|]. split; [apply Forall_app; split; auto | exact Ecap].
       + cbn [flatten]. rewrite map_app. cbn [map]. rewrite interleave_app2 by (rewrite map_length; exact L).
         cbn [interleave]. rewrite Fw, <- flatten_unfold. reflexivity.
     - split.
       + cbn [BTreeBase.shape]. unfold n_count in *. cbn [n_items n_cap n_children length].
-        split; [lia|]. split; [lia|]. split; [lia|]. constructor; auto.
+        split; [lia|]. split; [lia|]. split; [lia|]. split; [constructor; auto | exact Ecap].
       + cbn [flatten map]. rewrite interleave_cons2, Fw, <- flatten_unfold. reflexivity. }
   specialize (IH swp sep small ch ds Sch Ss Ech).
   destruct (BTreeModel.fast_attach maxCap e swp sep small ch) as [ch'|]; [|exact Here].
